@@ -13,7 +13,8 @@ EXPLANATION = (
     "the deadline; (e) evicted addresses reach AddressesRemoved (F10); (f) AddressesFound is built only from "
     "get_addresses_for_host, whose address accessor is guarded by a liveness test and tagged with the record's "
     "interface.  Decides these structural clauses, not which addresses over which history."
-    " (g) Every path that ends a hostname search purges its pending ResolveHostname rerun.")
+    " (g) Every path that ends a hostname search purges its pending ResolveHostname rerun."
+    " (h) HostnameResolutionEvent sends are lossless; keys of hostname_resolvers and addr are folded by one function.")
 UNDECIDED = ["which addresses are reported over which arrival history", "exact time of SearchTimeout",
              "doubling schedule (decided under C19)"]
 
